@@ -214,8 +214,8 @@ MUTANTS += [
     # ---- C10
     dict(prop='C10', name='queued-gt-delay-inverted', edits=[(WIRE, "                if queued_time < delay:", "                if queued_time > delay:")]),
     dict(prop='C10', name='delay-drawn-before-loss-test', edits=[(WIRE,
-         "            if not self.loss_rate or random.uniform(0, 1) >= self.loss_rate:\n                # The amount of time for this packet to stay in my store\n                queued_time = self.env.now - packet.current_time\n                delay = self.delay_dist()",
-         "            delay = self.delay_dist()\n            if not self.loss_rate or random.uniform(0, 1) >= self.loss_rate:\n                # The amount of time for this packet to stay in my store\n                queued_time = self.env.now - packet.current_time")]),
+         "            if not self.loss_rate or random.uniform(0, 1) >= self.loss_rate:\n                # The amount of time for this packet to stay in my store\n                queued_time = self.env.now - entered\n                delay = self.delay_dist()",
+         "            delay = self.delay_dist()\n            if not self.loss_rate or random.uniform(0, 1) >= self.loss_rate:\n                # The amount of time for this packet to stay in my store\n                queued_time = self.env.now - entered")]),
     dict(prop='C10', name='loss-draw-gt', edits=[(WIRE, "random.uniform(0, 1) >= self.loss_rate", "random.uniform(0, 1) > self.loss_rate * 1.2")]),
     dict(prop='C10', name='cable-wiring-crossed', edits=[(WIRE, "        self.wire1.out = dev2\n        dev2.out = self.wire2\n        self.wire2.out = dev1",
          "        self.wire1.out = dev1\n        dev2.out = self.wire2\n        self.wire2.out = dev2")]),
